@@ -88,6 +88,39 @@ class Interp(object):
         if isinstance(e, ast.Call):
             nm = e.func.id if isinstance(e.func, ast.Name) else (e.func.attr if isinstance(e.func, ast.Attribute) else None)
             args = e.args
+            fdef = getattr(self, 'funcs', {}).get(nm) if isinstance(e.func, ast.Name) else None
+            if fdef is not None and getattr(self, '_depth', 0) < 3 and not any(isinstance(a_, ast.Starred) for a_ in args):
+                # a helper of the same module: its return value over the intervals of the arguments (a pure function of them is assumed -
+                # the callers of this analysis are conversion routines whose helpers are)
+                prm = [a_.arg for a_ in fdef.args.args]
+                env2 = {}
+                attrs2 = dict(self.attrs)
+                given = list(zip(prm, args)) + [(k_.arg, k_.value) for k_ in e.keywords if k_.arg in prm]
+                for pn_, ae_ in given:
+                    env2[pn_] = self.ev(ae_, env)
+                    if isinstance(ae_, ast.Name) and ae_.id != pn_:
+                        for (on_, at_), v_ in list(self.attrs.items()):
+                            if on_ == ae_.id:
+                                attrs2[(pn_, at_)] = v_
+                if all(p_ in env2 for p_ in prm[:len(prm) - len(fdef.args.defaults)]):
+                    for p_, d_ in zip(prm[len(prm) - len(fdef.args.defaults):], fdef.args.defaults):
+                        if p_ not in env2:
+                            env2[p_] = self.ev(d_, env)
+                            if isinstance(d_, ast.Name):
+                                for (on_, at_), v_ in list(self.attrs.items()):
+                                    if on_ == d_.id:
+                                        attrs2[(p_, at_)] = v_
+                    sub = Interp({}, attrs=attrs2, tests=self.tests)
+                    sub.funcs = getattr(self, 'funcs', {})
+                    sub._depth = getattr(self, '_depth', 0) + 1
+                    sub.run(fdef.body, env2)
+                    vals = [v_ for st_, v_ in sub.returns]
+                    if vals and not sub.unsupported and all(v_ is not TOP and not isinstance(v_, tuple) or (isinstance(v_, tuple) and len(v_) == 2 and all(isinstance(x_, (int, float)) for x_ in v_)) for v_ in vals):
+                        out_ = vals[0]
+                        for v_ in vals[1:]:
+                            out_ = join(out_, v_)
+                        return out_
+                return TOP
             if nm in ('max', 'min') and len(args) == 2 and not e.keywords:
                 # a clamp bounds even an unknown value on one side
                 a_, b_ = self.ev(args[0], env), self.ev(args[1], env)
